@@ -156,8 +156,16 @@ def run(ctx):
         n_viol_seen[key] = n_viol_seen.get(key, 0) + 1
         ctx.violation(key, desc, replay, found_input=found)
 
+    base_bad = set()
+    for (label, text, name, extra, case, exp), an in zip(cases, results):
+        if label.startswith("gen:") and label.endswith(":base") and an["full"][0] != "ok":
+            base_bad.add(label.split(":")[1])
     for (label, text, name, extra, case, exp), an in zip(cases, results):
         full_st, full_detail = an["full"]
+        if label.startswith("gen:") and not label.endswith(":base") and label.split(":")[1] in base_bad:
+            # the base itself is rejected (reported once, with the base): its variants say nothing new
+            ctx.count("skipped:variant-of-rejected-base")
+            continue
         tv = an["typing"][0]
         ctx.count("compiler:" + full_st)
         rule = case.rule if case is not None else exp.get("rule")
@@ -170,8 +178,10 @@ def run(ctx):
         prop_failed = False
         # the value type the front end gives a field of each referenced type, against the documented one
         for tname, mine, impl in an.get("leaf_mismatch", []):
-            key = ("typecheck-user-type-named-flag-is-boolean" if tname.split(":")[-1].split(".")[-1] == "Flag" and impl == "TBool"
-                   else "typecheck-leaf-type:%s-as-%s" % (mine.strip("()").split(" ")[0], impl.strip("()").split(" ")[0]))
+            # the known defect concerns a TOP-LEVEL type called Flag (of another module) only
+            key = ("typecheck-user-type-named-flag-is-boolean" if tname.split(":")[-1] == "Flag" and impl == "TBool"
+                   else "typecheck-leaf-type:%s-as-%s:%s" % (mine.strip("()").split(" ")[0], impl.strip("()").split(" ")[0],
+                                                            "nested-" + tname.split(".")[-1] if "." in tname.split(":")[-1] else tname.split(":")[-1]))
             viol(key, "a field of type %s has value type %s in the front end; the reference gives it %s (%s)" % (tname, impl, mine, label),
                  dict(replay, type=tname, documented=mine, implementation=impl))
             prop_failed = True
